@@ -6,7 +6,7 @@ import env
 import gen
 sys.path.insert(0, os.path.join(env.VERIF, 'translate'))
 import gen_render
-from gallina import lit, gtree, gbool
+from gallina import lit, gcat, gbool
 
 from depccg.cat import Category
 from depccg.tree import Tree, ScoredTree
@@ -58,6 +58,27 @@ def robs(r):
     if r[0] == 'label':
         return f'(RLabel {lit(r[1])})'
     return 'ROther'
+
+
+def gtext(x):
+    """texts of the model; a value that is not a string (only a defective printer puts one into a token) is shown by its repr"""
+    return lit(x if isinstance(x, str) else '\x00' + repr(x))
+
+
+def gtree(t):
+    """like gallina.gtree, but total on whatever a printer may have left in a token"""
+    if t.is_leaf:
+        tok = '[' + ';'.join(f'({gtext(k)},{gtext(v)})' for k, v in t.token.items()) + ']'
+        return f'(Leaf {gcat(t.cat)} {tok} {gtext(t.op_string)} {gtext(t.op_symbol)})'
+    if t.is_unary:
+        return f'(Un {gcat(t.cat)} {gtext(t.op_string)} {gtext(t.op_symbol)} {gtree(t.child)})'
+    return f'(Bin {gcat(t.cat)} {gtext(t.op_string)} {gtext(t.op_symbol)} {gbool(t.head_is_left)} {gtree(t.left_child)} {gtree(t.right_child)})'
+
+
+@functools.lru_cache(None)
+def modelled_formats():
+    """{(lang, fmt)} that the generated table describes (the formats the theorems speak about)"""
+    return set(gen_render.analyse(env.REPO)['formats'])
 
 
 def gbatch(batch):
@@ -115,7 +136,7 @@ def first_difference(a, b, path='batch'):
 # ---- JSON encoding (replay files) -------------------------------------------------------------------------
 def enc_tree(t):
     if t.is_leaf:
-        return {'cat': str(t.cat), 'token': dict(t.token), 'ops': t.op_string, 'sym': t.op_symbol}
+        return {'cat': str(t.cat), 'token': {str(k): (v if isinstance(v, str) else repr(v)) for k, v in t.token.items()}, 'ops': t.op_string, 'sym': t.op_symbol}
     return {'cat': str(t.cat), 'ops': t.op_string, 'sym': t.op_symbol, 'hl': bool(t.head_is_left), 'children': [enc_tree(c) for c in t.children]}
 
 
